@@ -67,6 +67,12 @@ CHECKS = [
            "placement) and voronoi; random delineated catchments on grids up to 12x12 are validated by GridWeightsTrace.tla.",
       note="centres never exactly on a coarse edge; exact geometries",
       technique=TLA),
+ dict(property_id="C14", category="model_checking", design_ref="3.9",
+      text="Var2h.tla transcribes the loops of c_var2h and the wrapper's start/length rule in exact rationals on a 600 s tick lattice and TLC checks "
+           "them against the period-integral contract for every series up to the bound; every state is replayed through dutils.var2h with index units "
+           "ns/us/ms/s and time zones; random longer series are validated by Var2hTrace.tla.",
+      note="tick lattice, integer values; periods beyond the data or merely touched by an invalid interval unconstrained; no DST zones",
+      technique=TLA),
 ]
 
 _PENDING = "check not built yet in this round; see DESIGN.md section 3 for the planned specification"
